@@ -68,17 +68,22 @@ def gen_deps(modules):
     return gens
 
 
+FAILED_GEN = set()   # regenerated files for which the translator failed on this run (baseline copy in use)
+
+
 def regenerate(needed=None):
     """Regenerate Gen/*.lean from /repo. Returns a list of broken-obligation messages (only for the
     regenerated files in `needed`, if given: a translator failing on a file that the property's
     theorems do not use is not this property's broken obligation)."""
     broken = []
+    FAILED_GEN.clear()
     tmp = tempfile.mkdtemp(prefix="gen", dir=BUILD)
     try:
         for tool, files, extra in (("go2lean", ["Counts.lean", "Sizes.lean"], []), ("gofacts", ["Tables.lean", "Cmds.lean"], []),
                                    ("gostr2lean", ["Strs.lean"], ["strs"]), ("gostr2lean", ["Objs.lean"], ["objs"])):
             rc, o, e = run([os.path.join(BIN, tool), REPO, tmp] + extra)
             if rc != 0:
+                FAILED_GEN.update(files)
                 if needed is None or any(f in needed for f in files):
                     broken.append(f"{tool} cannot translate the current source: {e.strip().splitlines()[-1] if e.strip() else 'failed'}")
                 else:
@@ -161,9 +166,12 @@ def prove(pid, cfg, broken):
         broken.append("lake build " + " ".join(modules) + " failed: " + first_error(out))
         details.append(out[-4000:])
     names = []
+    stale = set()   # theorems checked against a baseline copy only: their regenerated input could not be produced
     for m in modules:
         ns, src = theorem_names(m)
         names += ns
+        if gen_deps([m]) & FAILED_GEN:
+            stale.update(ns)
         if FORBIDDEN.search(strip_comments(src)):
             broken.append(f"{m} contains a forbidden construct (sorry/admit/axiom/native_decide/bv_decide/...)")
     # textual scan of the proof modules the property modules import
@@ -191,6 +199,8 @@ def prove(pid, cfg, broken):
             for m in re.finditer(r"'([^']+)' (does not depend on any axioms|depends on axioms: \[([^\]]*)\])", text):
                 ax = set(a.strip() for a in (m.group(3) or "").split(",") if a.strip())
                 axioms_seen |= ax
+                if m.group(1) in stale:
+                    continue    # not discharged: proved of the baseline, not of the current source
                 if ax <= ALLOWED_AXIOMS:
                     discharged += 1
                 else:
